@@ -65,6 +65,10 @@ add("lang", "file", "int vf%d(int, int, ...); int vu%d(void) { return vf%d(1); }
     "struct e%d { int a; struct { int b; int a; }; };", "struct e%d { struct { int y; int x; }; int x; };", "union e%d { int a; float a; };",
     "int q%d(int a, int a);", "int q%d(int a, int (*g)(int), char a) { return 0; }", "double q%d = 0x1.0;", "float q%d = 0x.8f;")
 add("lang", "unit", "#line 1 2\nint x;\n", "# 3 4\nint x;\n")
+# the address of an object with thread storage duration is not an address constant (C11 6.6p9)
+add("lang", "file", "_Thread_local int tl%d; int *ptl%d = &tl%d;", "static _Thread_local int ts%d[4]; static int *pts%d = &ts%d[1];", "extern _Thread_local int te%d; int *pte%d = &te%d;",
+    "_Thread_local struct hs th%d; int *pth%d = &th%d.a;", "_Thread_local int tm%d; struct { int k; int *p; } ag%d = { 1, &tm%d };", "_Thread_local int tq%d[2]; int *aq%d[2] = { 0, tq%d + 1 };")
+add("lang", "block", "{ static _Thread_local int bt%d; static int *bp%d = &bt%d; }", "{ extern _Thread_local int be%d; static int *bq%d = &be%d; }")
 # qualifiers that reach an array only through the lvalue (member of a const struct, const-qualified typedef'd array) survive the decay
 add("lang", "block", "{ typedef int A%d[4]; const A%d ta%d = { 0 }; ta%d[1] = 2; }", "{ const struct hs *cp%d = gsp; cp%d->arr[1] = 2; }", "{ const struct hs cs%d = { 0 }; cs%d.arr[0] = 1; }",
     "{ const struct hs *cp%d = gsp; *cp%d->arr = 2; }", "{ const struct hs *cp%d = gsp; gp = cp%d->arr; }", "{ typedef int A%d[4]; const A%d ta%d = { 0 }; gp = ta%d; }",
